@@ -53,9 +53,205 @@ def place_term(fl, p, depth):
     return base
 
 
+def _single_def(fl, l):
+    ds = fl.defs.get(l, [])
+    if len(ds) == 1 and not ds[0][4]:
+        return ds[0]
+    return None
+
+
+def _const_of_local(fl, l):
+    d = _single_def(fl, l)
+    if d and d[2] == 'assign' and d[3]['k'] == 'use' and d[3]['ops'][0]['k'] == 'const' and isinstance(d[3]['ops'][0].get('v'), int):
+        return d[3]['ops'][0]['v']
+    return None
+
+
+def _op_const(fl, op):
+    if op['k'] == 'const':
+        return op.get('v') if isinstance(op.get('v'), int) else None
+    return _const_of_local(fl, op['p']['l']) if not op['p']['proj'] else None
+
+
+def _array_len(ty):
+    import re
+    m = re.match(r'^&?(?:mut )?\[u8; (\d+)\]$', ty.strip())
+    return int(m.group(1)) if m else None
+
+
+def ref_target(fl, op, hops=0):
+    """what a reference operand points at, followed through re-borrows, unsizing casts and `x[a..b]`:
+    (place, lo, hi) with place = {'l':.., 'proj':[..]} (proj without the leading deref chain) and lo/hi byte bounds or None"""
+    if hops > 12 or op['k'] == 'const':
+        return None
+    p = op['p']
+    if p['proj']:
+        return None
+    d = _single_def(fl, p['l'])
+    if d is None:
+        if 1 <= p['l'] <= fl.body.argc and not fl.defs.get(p['l']) and fl.body.local_ty(p['l']).startswith('&'):
+            return ({'l': p['l'], 'proj': ['deref']}, None, None)      # a reference parameter: what it points at
+        return None
+    bb, idx, kind, data, _ = d
+    if kind == 'call':
+        c = callee(data) or ''
+        if c in ('std::ops::Index::index', 'std::ops::IndexMut::index_mut') and len(data['args']) == 2:
+            base = ref_target(fl, data['args'][0], hops + 1)
+            r = data['args'][1]
+            rd = _single_def(fl, r['p']['l']) if r['k'] != 'const' and not r['p']['proj'] else None
+            if base is None or base[1] is not None or rd is None or rd[2] != 'assign' or rd[3]['k'] != 'agg':
+                return None
+            adt = norm(rd[3].get('adt') or '')
+            ops = [_op_const(fl, o) for o in rd[3]['ops']]
+            if adt.endswith('ops::Range') and len(ops) == 2 and None not in ops:
+                return (base[0], ops[0], ops[1])
+            if adt.endswith('ops::RangeTo') and len(ops) == 1 and None not in ops:
+                return (base[0], 0, ops[0])
+            return None
+        return None
+    rv = data
+    if rv['k'] == 'ref':
+        q = rv['p']
+        if q['proj'] and q['proj'][0] == 'deref':
+            if len(q['proj']) == 1:
+                return ref_target(fl, {'k': 'copy', 'p': {'l': q['l'], 'proj': []}}, hops + 1)
+            inner = ref_target(fl, {'k': 'copy', 'p': {'l': q['l'], 'proj': []}}, hops + 1)
+            if inner is None or inner[1] is not None:
+                # a reference parameter: the place is named through the parameter itself
+                if 1 <= q['l'] <= fl.body.argc and not fl.defs.get(q['l']):
+                    return ({'l': q['l'], 'proj': list(q['proj'])}, None, None)
+                return None
+            return ({'l': inner[0]['l'], 'proj': list(inner[0]['proj']) + list(q['proj'][1:])}, None, None)
+        return ({'l': q['l'], 'proj': list(q['proj'])}, None, None)
+    if rv['k'] in ('use', 'cast') and rv['ops'][0]['k'] != 'const':
+        return ref_target(fl, rv['ops'][0], hops + 1)
+    return None
+
+
+def array_store_term(fl, l, depth):
+    """A fixed byte array filled piecewise - `[0u8; N]`, then `buf[k] = x`, `buf[a..b].copy_from_slice(&src)` - as the
+    ('array', [term per byte]) it holds after the last write. The writes must form one chain (each dominates the next);
+    anything else -> None."""
+    b = fl.body
+    n = _array_len(b.local_ty(l))
+    if n is None or n > 64:
+        return None
+    cfg = fl.cfg
+    events = []
+    for (bb, idx, kind, data, dproj) in fl.defs.get(l, []):
+        events.append((bb, idx if idx != 'term' else 1 << 30, 'def', (kind, data, dproj)))
+    borrowed = False
+    for bi in cfg.reachable():
+        blk = b.blocks[bi]
+        for st in blk['stmts']:
+            rv = st['rv']
+            if rv['k'] == 'ref' and rv['p']['l'] == l and rv.get('mut'):
+                borrowed = True
+        t = blk['term']
+        if t['k'] == 'call' and (callee(t) or '').endswith('::copy_from_slice') and len(t['args']) == 2:
+            tgt = ref_target(fl, t['args'][0])
+            if tgt is not None and tgt[0]['l'] == l and not tgt[0]['proj']:
+                events.append((bi, 1 << 30, 'copy', (tgt, t['args'][1])))
+            elif tgt is None:
+                # a copy into something unresolved may write this array
+                o = fl.origins(t['args'][0])
+                if any(getattr(x, 'kind', '') == 'local' and x.key == l for x in o):
+                    return None
+    if not any(e[2] == 'copy' for e in events) and not any(e[2] == 'def' and e[3][2] for e in events):
+        return None
+
+    def before(x, y):
+        if x[0] == y[0]:
+            return x[1] < y[1]
+        return cfg.dominates(x[0], y[0])
+    import functools
+    try:
+        events.sort(key=functools.cmp_to_key(lambda x, y: -1 if before(x, y) else (1 if before(y, x) else 0)))
+    except Exception:
+        return None
+    for x, y in zip(events, events[1:]):
+        if not before(x, y):
+            return None
+    cells = None
+    for (bb, idx, what, data) in events:
+        if what == 'def':
+            kind, rv, dproj = data
+            if not dproj:
+                if kind != 'assign':
+                    return None
+                if rv['k'] == 'repeat':
+                    cells = [term_of(fl, rv['ops'][0], depth + 1)] * n
+                elif rv['k'] == 'agg' and rv.get('ak') == 'array' and len(rv['ops']) == n:
+                    cells = [term_of(fl, o, depth + 1) for o in rv['ops']]
+                else:
+                    return None
+            else:
+                if cells is None or len(dproj) != 1 or kind != 'assign':
+                    return None
+                e = dproj[0]
+                k = e.get('cidx') if isinstance(e, dict) and 'cidx' in e else (_const_of_local(fl, e['idx']) if isinstance(e, dict) and 'idx' in e else None)
+                if k is None or not (0 <= k < n):
+                    return None
+                cells = list(cells)
+                if rv['k'] == 'use':
+                    cells[k] = term_of(fl, rv['ops'][0], depth + 1)
+                elif rv['k'] == 'cast':
+                    cells[k] = ('cast', term_of(fl, rv['ops'][0], depth + 1), rv['ty'])
+                else:
+                    return None
+        else:
+            (tgt, src_op) = data
+            if cells is None:
+                return None
+            lo, hi = (0, n) if tgt[1] is None else (tgt[1], tgt[2])
+            if not (0 <= lo <= hi <= n):
+                return None
+            src = ref_target(fl, src_op)
+            if src is None:
+                return None
+            sp, slo, shi = src
+            if sp['l'] == l:
+                return None
+            base = place_term(fl, sp, depth + 1)
+            if slo is None:
+                # whole source: its length must be known from its type and equal the target range
+                sl = None
+                if base[0] == 'array':
+                    sl = len(base[1])
+                else:
+                    sl = _place_array_len(fl, sp)
+                if sl != hi - lo:
+                    return None
+                slo = 0
+            elif shi - slo != hi - lo:
+                return None
+            cells = list(cells)
+            for j in range(hi - lo):
+                cells[lo + j] = base[1][slo + j] if base[0] == 'array' and slo + j < len(base[1]) else ('idx', base, slo + j)
+    return ('array', cells) if cells is not None else None
+
+
+def _place_array_len(fl, p):
+    """length of the byte array a place denotes, from the types in the fact file"""
+    b = fl.body
+    if not [e for e in p['proj'] if e != 'deref']:
+        return _array_len(b.local_ty(p['l']))
+    # a field: look for a reference local whose single definition borrows exactly this place
+    for l2, ds in fl.defs.items():
+        if len(ds) == 1 and ds[0][2] == 'assign' and ds[0][3]['k'] == 'ref' and ds[0][3]['p'] == p:
+            n = _array_len(b.local_ty(l2))
+            if n is not None:
+                return n
+    return None
+
+
 def local_term(fl, l, depth):
     b = fl.body
     ds = fl.defs.get(l, [])
+    if ds and _array_len(b.local_ty(l)) is not None and not (1 <= l <= b.argc):
+        at = array_store_term(fl, l, depth)
+        if at is not None:
+            return at
     if 1 <= l <= b.argc and not ds:
         return ('param', l, b.local_name(l))
     if len(ds) != 1:
